@@ -55,6 +55,8 @@ pub enum Step {
     /// First step of a remote that is not attached when the agent starts: it attaches now, under
     /// the routing id of remote k (an id that was seen before comes back on a new channel).
     Attach(usize),
+    /// The remote writes bytes that are no envelope (a peer that has lost its framing).
+    Garbage,
 }
 
 impl Step {
@@ -63,7 +65,7 @@ impl Step {
             Step::Link(l) | Step::Sync(l) | Step::Unlink(l) | Step::Cmd(l, _) => l,
             Step::Wait(_) => "",
             Step::Http(l) => l,
-            Step::Detach | Step::Attach(_) => "",
+            Step::Detach | Step::Attach(_) | Step::Garbage => "",
         }
     }
 }
@@ -1055,6 +1057,16 @@ impl World for AsWorld {
                     r.sent.push((step, item.clone()));
                     self.script_pos += 1;
                     self.log(format!("remote {} attaches under the id of remote {}", i, k));
+                } else if let Step::Garbage = &item {
+                    if let Some(tx) = r.tx.as_mut() {
+                        if let Err(e) = write_all_now(tx, &[0xffu8; 24]) {
+                            r.tx = None;
+                            r.write_failed = Some(e);
+                        }
+                    }
+                    r.sent.push((step, item.clone()));
+                    self.script_pos += 1;
+                    self.log(format!("remote {} writes garbage", i));
                 } else if let Step::Http(lane) = &item {
                     let uri: swimos_api::http::Uri = format!("/node?lane={}", lane).parse().expect("uri");
                     let req = swimos_api::http::HttpRequest::get(uri).map(|_| bytes::Bytes::new());
@@ -1071,7 +1083,7 @@ impl World for AsWorld {
                     Step::Sync(_) => RequestMessage::sync(r.id, path),
                     Step::Unlink(_) => RequestMessage::unlink(r.id, path),
                     Step::Cmd(_, body) => RequestMessage::command(r.id, path, body.as_bytes()),
-                    Step::Wait(_) | Step::Http(_) | Step::Detach | Step::Attach(_) => unreachable!(),
+                    Step::Wait(_) | Step::Http(_) | Step::Detach | Step::Attach(_) | Step::Garbage => unreachable!(),
                 };
                 let mut buf = BytesMut::new();
                 let mut enc = RawRequestMessageEncoder;
